@@ -191,7 +191,7 @@ pub fn replay_value(v: &Value) -> Result<(), String> {
         "conc" => conc::replay(v),
         "batch" => batch::replay(v),
         "owner" => owner::replay(v),
-        "tablefmt" | "filterpolicy" => tablefmt::replay(v),
+        "tablefmt" | "filterpolicy" | "filterlayout" => tablefmt::replay(v),
         other => Err(format!("unknown replay engine {other:?}")),
     }
 }
